@@ -95,6 +95,30 @@ Theorem C06_model_passes : forall k,
 Proof. exact C06_model_passes_run. Qed.
 Print Assumptions C06_model_passes.
 
+(* ... and on every well-formed rearrangement case (reordering, duplication,
+   loss in any combination): every frame is a source unit stamped from its own
+   RTP timestamp with a clock base the stream announced *)
+Theorem C06_model_passes_all : forall k,
+  case_guard k = true -> let '(fs, pn) := run_case k in ok_case k fs pn = true.
+Proof. exact C06_model_passes_all. Qed.
+Print Assumptions C06_model_passes_all.
+
+(* fu_never_spliced: packets of one packetisation in any order, any number of
+   times, any subset — whatever the depacketiser emits is a unit of the sender *)
+Theorem C06_fu_never_spliced_h264 : forall seq0 items ix,
+  forallb (item_ok z264) items = true -> Z.of_nat (total_pk items) <= 65536 ->
+  exists st' fs, depack264 st264_init (pick ix (packetize264 seq0 items)) = (st', fs, false) /\
+                 forall f, In f fs -> In f (filter (fun f => keep264 (u_pl f)) (flat_map item_frames items)).
+Proof. exact fu_never_spliced_264. Qed.
+Print Assumptions C06_fu_never_spliced_h264.
+
+Theorem C06_fu_never_spliced_h265 : forall seq0 items ix,
+  forallb (item_ok z265) items = true -> Z.of_nat (total_pk items) <= 65536 ->
+  exists st' fs, depack265 st265_init (pick ix (packetize265 seq0 items)) = (st', fs, false) /\
+                 forall f, In f fs -> In f (flat_map item_frames items).
+Proof. exact fu_never_spliced_265. Qed.
+Print Assumptions C06_fu_never_spliced_h265.
+
 (* behaviour before the fixes, kept as witnesses (D8, D9) *)
 Theorem C06_h264_fu_start_loss_refuted :
   let ps := select [false; true; true] (packetize264 11 d8_items) in
